@@ -291,6 +291,76 @@ def install_common(ex: Executor):
     ex.store = store
 
 
+def install_token_values(ex: Executor):
+    """numeric / textual use of `token.value` (tnum for arithmetic and float results, tstr for comparisons with text)"""
+    from pyvc.values import NEG_INF, POS_INF
+    upper = z3.Function("str_upper", Key, Key)
+
+    def num(v):
+        if isinstance(v, tuple) and v and v[0] == "tokvalue":
+            return tnum(v[1].id)
+        return v
+    orig_binop = ex.binop
+
+    def binop(op, l, r, st, node):
+        return orig_binop(op, num(l), num(r), st, node)
+    ex.binop = binop
+    orig_compare = ex.compare
+
+    def compare(op, l, r, st, node):
+        if isinstance(op, (ast.Lt, ast.LtE, ast.Gt, ast.GtE)):
+            l, r = num(l), num(r)
+        return orig_compare(op, l, r, st, node)
+    ex.compare = compare
+    orig_equal = ex.equal
+
+    def equal(l, r, st):
+        for a, b in ((l, r), (r, l)):
+            if isinstance(a, tuple) and a and a[0] == "tokvalue_upper" and isinstance(b, str):
+                return upper(tstr(a[1].id)) == strc(b)
+        return orig_equal(l, r, st)
+    ex.equal = equal
+    orig_cvm = ex.call_value_method
+
+    def cvm(recv, o, name, args, kwargs, st, node):
+        if isinstance(recv, tuple) and recv and recv[0] == "tokvalue" and name == "upper":
+            return [(("tokvalue_upper", recv[1]), st)]
+        return orig_cvm(recv, o, name, args, kwargs, st, node)
+    ex.call_value_method = cvm
+    orig_ga = ex.getattr
+
+    def ga(base, attr, st, node=None):
+        if isinstance(base, tuple) and base and base[0] == "tokvalue":
+            return ("boundmethod", base, attr)
+        return orig_ga(base, attr, st, node)
+    ex.getattr = ga
+
+    def b_int(ex_, st, args, kwargs, node):
+        v = num(args[0])
+        if z3.is_expr(v) and z3.is_real(v):
+            # int(float): OverflowError for +-inf, ValueError for nan, else truncation (an Int within 1 of v)
+            line = getattr(node, "lineno", 0)
+            outs = []
+            s_inf = st.clone()
+            s_inf.pc.append(z3.Or(v == POS_INF, v == NEG_INF))
+            if ex_.feasible(s_inf):
+                outs.append((Raised(Exc("OverflowError", line)), s_inf))
+            s_nan = st.clone()
+            s_nan.pc.append(v > POS_INF)
+            if ex_.feasible(s_nan):
+                outs.append((Raised(Exc("ValueError", line)), s_nan))
+            n = fresh("int", I)
+            st.pc += [v > NEG_INF, v < POS_INF, z3.ToReal(n) <= z3.If(v >= 0, v, v + 1), z3.ToReal(n) >= z3.If(v >= 0, v - 1, v)]
+            outs.append((n, st))
+            return outs
+        raise Unsupported("int() of this value")
+    ex.consts["int"] = ("builtin", b_int)
+    ex.consts["nan"] = POS_INF + 1
+    ex.consts["inf"] = POS_INF
+    ex.consts["isnan"] = ("builtin", lambda ex_, s, a, kw, n: [(ex_.lift(num(a[0])) > POS_INF, s)])
+    return num
+
+
 def _pure_lambda(ex, f, x, st):
     """evaluate `lambda _: A or B` without forking: Or(A, B)"""
     body = f.node.body
